@@ -1,0 +1,11 @@
+//go:build verif
+
+package martian
+
+// VerifLiveContexts returns the number of live request-to-context
+// associations (verification hook: leak check at quiescence).
+func VerifLiveContexts() int {
+	ctxmu.RLock()
+	defer ctxmu.RUnlock()
+	return len(ctxs)
+}
